@@ -4,6 +4,7 @@ C05 — MIN, MAX, next and next_back follow discriminant order, not declaration 
 import EnumToolsModel.Lemmas.NextBack
 import EnumToolsModel.Lemmas.Sorted
 import EnumToolsModel.Lemmas.Examples
+import EnumToolsModel.Lemmas.TemplatesEq
 namespace ET.Thm
 
 /-- MIN and MAX are the variants with the smallest and the largest discriminant -/
@@ -134,5 +135,11 @@ theorem C05_nextBack_next (D : Derive) (h : D.WF) (v w : Int) (hv : v ∈ D.vals
 example : exD1.WF ∧ nextFn exD1 (-4) = .ok (some 3) ∧ nextFn exD1 127 = .ok none ∧ nextBackFn exD3 (-128) = .ok none
     ∧ nextBackFn exD1 3 = .ok (some (-4)) ∧ nextFn exD2 255 = .ok none := by
   refine ⟨exD1_WF, by decide, by decide, by decide, by decide, by decide⟩
+
+/-- `next` / `next_back` as the source is written now (`Generated/Templates.lean`) -/
+theorem C05_source (D : Derive) (tg : Target) (md : Modes) (h : D.WF) (v : Int) (hv : v ∈ D.vals) :
+    T.next D tg md v = .ok (spec.next D.sem v) ∧ T.nextBack D tg md v = .ok (spec.nextBack D.sem v) :=
+  ⟨by rw [T.next_eq D tg md h v hv]; exact C05_next D h v hv,
+   by rw [T.nextBack_eq D tg md h v hv]; exact C05_nextBack D h v hv⟩
 
 end ET.Thm
